@@ -99,6 +99,7 @@ VARIANTS = [
     ('c09-no-rebind', 'C09', CTX, "                    yield cur_tree\n                    cur_tree = None", "                    yield cur_tree", B, 'C09.R1'),
     ('c09-no-flush', 'C09', CTX, "        if cur_tree is not None:\n            # The source ended inside the requested loop\n            yield cur_tree\n", "", B, 'C09.R1'),
     # ---------------------------------------------------------------- C10
+    ('c10-insert-before-later', 'C10', 'pyx12/x12context.py', "        if idx is not None:\n            return idx + 1\n        return 0\n", "        if idx is not None:\n            return idx + 1\n        return len(self.children)\n", B, 'C10.R5'),
     ('c10-share-end-loops', 'C10', CTX, "        ret.end_loops = list(self.end_loops)\n        ret.parent = self.parent", "        ret.end_loops = self.end_loops\n        ret.parent = self.parent", B, 'C10.R1'),
     ('c10-no-parent', 'C10', CTX, "        data_node.parent = self\n        child_idx", "        child_idx", B, 'C10.R2'),
     ('c10-unfiltered', 'C10', CTX, "        for child in [x for x in self.children if x.type is not None]:\n            for a in child.iterate_segments():", "        for child in self.children:\n            for a in child.iterate_segments():", B, 'C10.R3'),
